@@ -417,7 +417,7 @@ func c11Decode(e string, in []byte, variant int) (reads int, over bool) {
 		return st.n, st.over
 	case "bam":
 		st := newStep(in)
-		br, err := bam.NewReader(st, 1)
+		br, err := bam.NewReader(st, 1+variant/3)
 		if err == nil {
 			br.Omit(variant % 3)
 			h := br.Header()
